@@ -57,7 +57,7 @@ theorem io_fresh_ids (w : World) (s : JState) (hf : ∀ u, (s.us.get u).fresh = 
 /-! ### one iteration of backend() -/
 
 theorem OB_cycle (sc : Scripts) (fs : FState) (js : JState) (os : OState) (w : World) (hb : B fs js w)
-    (h : OB js os w) (hq : Quiet w) :
+    (h : OB js os w) (hq : Quiet w) (hno : (cycleStep sc w).1.overflow = false) :
     OB ((cycleStep sc w).2.foldl judgeStep js) ((cycleStep sc w).2.foldl orderStep os) (cycleStep sc w).1 := by
   have hsafeEnd := cycleStep_safe sc w hq.1
   have hwend := cycleStep_world sc w
@@ -125,6 +125,7 @@ theorem OB_cycle (sc : Scripts) (fs : FState) (js : JState) (os : OState) (w : W
     apply eligible_start fs js w hb.g hb.cpl hb.live hb.flag v
     · rw [← CplO_live h.cpl v]; exact b1
     · rw [← h.cpl.mode v, ← h.cpl.pend v]; exact b2
+    · exact (cycleStep_ovf sc w hno).1
   have hOLA : OL
       ((processIO { w with cycle := w.cycle + 1, users := grantAll w.users w.slots }).2.foldl judgeStep
         (judgeStep (judgeStep js (.begin (w.cycle + 1))) (.poll (w.cycle + 1) (pollBlocks (hasPending w)))))
@@ -188,24 +189,26 @@ theorem foldl_pstep3 (l : List Ev) (p : (FState × JState) × OState) :
   | cons e r ih => rw [List.foldl_cons, ih]; rfl
 
 theorem OB_cycleRun (sc : Scripts) (fs : FState) (js : JState) (os : OState) (w : World) (hb : B fs js w)
-    (h : OB js os w) (hq : Quiet w) :
+    (h : OB js os w) (hq : Quiet w) (hno : (cycleRun sc (weight w + 1) w).1.overflow = false) :
     OB ((cycleRun sc (weight w + 1) w).2.foldl judgeStep js) ((cycleRun sc (weight w + 1) w).2.foldl orderStep os)
       (cycleRun sc (weight w + 1) w).1 := by
-  have := (cycleRun_fold sc pstep3 (fun p w => B p.1.1 p.1.2 w ∧ OB p.1.2 p.2 w)
-    (fun p w hh hq' => by
+  have := (cycleRun_fold sc pstep3 (fun p w => w.overflow = false → B p.1.1 p.1.2 w ∧ OB p.1.2 p.2 w)
+    (fun p w hh hq' hn => by
+      have hh' := hh (cycleStep_ovf sc w hn).2
       rw [foldl_pstep3]
-      exact ⟨B_cycle sc p.1.1 p.1.2 w hh.1 hq', OB_cycle sc p.1.1 p.1.2 p.2 w hh.1 hh.2 hq'⟩)
-    (fun p w hh => ⟨B_clear _ _ w hh.1, OB_clear _ _ w hh.2⟩) (weight w + 1) w ((fs, js), os) ⟨hb, h⟩ hq (by omega)).1
+      exact ⟨B_cycle sc p.1.1 p.1.2 w hh'.1 hq' hn, OB_cycle sc p.1.1 p.1.2 p.2 w hh'.1 hh'.2 hq' hn⟩)
+    (fun p w hh hn => ⟨B_clear _ _ w (hh hn).1, OB_clear _ _ w (hh hn).2⟩) (weight w + 1) w ((fs, js), os)
+    (fun _ => ⟨hb, h⟩) hq (by omega)).1 hno
   rw [foldl_pstep3] at this
   exact this.2
 
 theorem OB_step (sc : Scripts) (fs : FState) (js : JState) (os : OState) (w : World) (c : Cmd) (hb : B fs js w)
-    (h : OB js os w) (hq : Quiet w) :
+    (h : OB js os w) (hq : Quiet w) (hno : (step sc w c).1.overflow = false) :
     OB ((step sc w c).2.foldl judgeStep js) ((step sc w c).2.foldl orderStep os) (step sc w c).1 := by
   cases c with
   | cycle =>
     have : step sc w .cycle = cycleRun sc (weight w + 1) w := by simp [step, hq.1.1]
-    rw [this]; exact OB_cycleRun sc fs js os w hb h hq
+    rw [this] at hno ⊢; exact OB_cycleRun sc fs js os w hb h hq hno
   | conn =>
     have hst : step sc w .conn = ({ w with nconn := w.nconn + 1 }, [Ev.conn (w.nconn + 1)]) := by simp [step, hq.1.1]
     rw [hst]
@@ -269,32 +272,35 @@ theorem OB_init : OB {} {} {} :=
    rfl, (fun _ _ => rfl), (fun v u hu => by cases hu), (fun v hv => by cases hv)⟩
 
 theorem OB_run (sc : Scripts) (cs : List Cmd) (fs : FState) (js : JState) (os : OState) (w : World) (hb : B fs js w)
-    (h : OB js os w) (hq : Quiet w) (hp : plainCmds cs = true) :
+    (h : OB js os w) (hq : Quiet w) (hp : plainCmds cs = true) (hno : (run sc w cs).1.overflow = false) :
     OB ((run sc w cs).2.foldl judgeStep js) ((run sc w cs).2.foldl orderStep os) (run sc w cs).1 := by
   induction cs generalizing fs js os w with
   | nil => exact h
   | cons c r ih =>
     simp only [plainCmds, List.all_cons, Bool.and_eq_true] at hp
-    simp only [run, List.foldl_append]
-    exact ih _ _ _ _ (B_step sc fs js w c hb hq hp.1) (OB_step sc fs js os w c hb h hq) (cursor_in_bounds sc w c hq)
-      (by simpa [plainCmds] using hp.2)
+    have hno1 := run_ovf_head sc c r w hno
+    simp only [run, List.foldl_append] at hno ⊢
+    exact ih _ _ _ _ (B_step sc fs js w c hb hq hp.1 hno1) (OB_step sc fs js os w c hb h hq hno1) (cursor_in_bounds sc w c hq)
+      (by simpa [plainCmds] using hp.2) hno
 
 /-- **trace theorem 5** (clause `overtaken`): for every history with plain bytes and every script oracle - in particular
     through iterations that an uncaught error aborts and the restarts that follow, with the connection table growing in
     between - nobody is served a second time while another user, who had a complete command at the top of an iteration,
     still waits for his first service: the cursor was stepped past every user it served, so the restarted walk reaches
     every waiting user before it comes back to a served one (`rank`, `guc_ord`). -/
-theorem judgeOrder_events (sc : Scripts) (cs : List Cmd) (hp : plainCmds cs = true) : judgeOrder (events sc cs) = [] := by
+theorem judgeOrder_events (sc : Scripts) (cs : List Cmd) (hp : plainCmds cs = true)
+    (hno : (run sc {} cs).1.overflow = false) : judgeOrder (events sc cs) = [] := by
   unfold judgeOrder events
-  rw [(OB_run sc cs {} {} {} {} B_init OB_init quiet_init hp).obad]
+  rw [(OB_run sc cs {} {} {} {} B_init OB_init quiet_init hp hno).obad]
   rfl
 
 /-- **TOP THEOREM**: for every history of connects, sends of plain bytes, closes and backend iterations, and EVERY
     script oracle (kicks, drops, get_char / input_to, nested command() calls, uncaught errors), the specification oracle -
     all five clause oracles: twice / outside / crash / malformed, efun, fifo, starved / idleWait, overtaken - accepts
     the event trace of the model. -/
-theorem model_satisfies_spec (sc : Scripts) (cs : List Cmd) (hp : plainCmds cs = true) : judgeEv (events sc cs) = [] := by
-  rw [judgeEv_events_eq_order sc cs hp]
-  exact judgeOrder_events sc cs hp
+theorem model_satisfies_spec (sc : Scripts) (cs : List Cmd) (hp : plainCmds cs = true)
+    (hno : (run sc {} cs).1.overflow = false) : judgeEv (events sc cs) = [] := by
+  rw [judgeEv_events_eq_order sc cs hp hno]
+  exact judgeOrder_events sc cs hp hno
 
 end NV.C12
